@@ -8,25 +8,25 @@ package main
 const evalAstShape = "eval_ast returns, with a nil error, a List with exactly one element per element of its List argument (checked separately by C01.order: one append per iteration of a range loop), and the argument was tested non-empty before the dispatch"
 
 var exemptionsC04 = map[string]string{
-	`lisp.EVAL | panic Errorf("debugger command not handled %d",&local[:])`:                                         "reached only when a host Stepper callback returns a value outside debuggertypes.Command's declared constants; C18.enum checks the switch covers every declared constant",
-	`lisp.EVAL | index eval_ast(local,macroexpand(local,φ,local)#0,local)#0.(types.List).Val[0]`:                    evalAstShape,
-	`lisp.EVAL | slice eval_ast(local,macroexpand(local,φ,local)#0,local)#0.(types.List).Val[1:]`:                   evalAstShape,
-	`lisp.do | slice p1.(types.List).Val[p2:len(p1.(types.List).Val)+p3]`:                                           "every call site passes (from,to) in {(2,-1),(1,-1),(0,0),(0,-1)} with a list that has at least `from` elements (head symbol and binding vector were read by the caller) and the function returned already when len(lst) == from; the call-site constants are checked by C01.body",
-	`lisp.do | index eval_ast(p0,local,p4)#0.(types.List).Val[len(eval_ast(p0,local,p4)#0.(types.List).Val)-1]`:     evalAstShape + "; the slice evaluated is non-empty because len(lst) != from was tested",
-	`lisp.do | index p1.(types.List).Val[len(p1.(types.List).Val)-1]`:                                               "len(lst) > from >= 0 at this point (see the slice above)",
-	`env.NewSubordinateEnv | assert p0.(*env.Env)`:                                                                  "documented assumption: EnvType values are the module's own *env.Env (the only implementation in the module)",
-	`env.NewSubordinateEnvWithBinds | assert p0.(*env.Env)`:                                                         "documented assumption: EnvType values are the module's own *env.Env (the only implementation in the module)",
-	`printer.Pr_str | assert p0.(marshaler.HashMap).MarshalHashMap()#0.(types.HashMap)`:                             "contract of marshaler.HashMap implementations (host types); the only in-module implementation, LispError.MarshalHashMap, returns a types.HashMap",
+	`lisp.EVAL | panic Errorf("debugger command not handled %d",&local[:])`:                                     "reached only when a host Stepper callback returns a value outside debuggertypes.Command's declared constants; C18.enum checks the switch covers every declared constant",
+	`lisp.EVAL | index eval_ast(local,macroexpand(local,φ,local)#0,local)#0.(types.List).Val[0]`:                evalAstShape,
+	`lisp.EVAL | slice eval_ast(local,macroexpand(local,φ,local)#0,local)#0.(types.List).Val[1:]`:               evalAstShape,
+	`lisp.do | slice p1.(types.List).Val[p2:len(p1.(types.List).Val)+p3]`:                                       "every call site passes (from,to) in {(2,-1),(1,-1),(0,0),(0,-1)} with a list that has at least `from` elements (head symbol and binding vector were read by the caller) and the function returned already when len(lst) == from; the call-site constants are checked by C01.body",
+	`lisp.do | index eval_ast(p0,local,p4)#0.(types.List).Val[len(eval_ast(p0,local,p4)#0.(types.List).Val)-1]`: evalAstShape + "; the slice evaluated is non-empty because len(lst) != from was tested",
+	`lisp.do | index p1.(types.List).Val[len(p1.(types.List).Val)-1]`:                                           "len(lst) > from >= 0 at this point (see the slice above)",
+	`env.NewSubordinateEnv | assert p0.(*env.Env)`:                                                              "documented assumption: EnvType values are the module's own *env.Env (the only implementation in the module)",
+	`env.NewSubordinateEnvWithBinds | assert p0.(*env.Env)`:                                                     "documented assumption: EnvType values are the module's own *env.Env (the only implementation in the module)",
+	`printer.Pr_str | assert p0.(marshaler.HashMap).MarshalHashMap()#0.(types.HashMap)`:                         "contract of marshaler.HashMap implementations (host types); the only in-module implementation, LispError.MarshalHashMap, returns a types.HashMap",
 }
 
 const scannerTokens = "tokens of kind String, RawString and Keyword that the trusted scanner returns without raising its error count include their delimiters (\"…\", ¬…¬, :…): unterminated literals make tokenize return 'invalid token' before read_atom runs"
 
 var exemptionsC05 = map[string]string{
-	`reader.read_atom | slice next(p0).Value[1:len(next(p0).Value)-1]`:                                              scannerTokens,
-	`reader.read_atom | slice next(p0).Value[2:len(next(p0).Value)-2]`:                                              scannerTokens + "; the lone ¬ is handled by the comparison just above",
-	`reader.read_atom | slice next(p0).Value[1:]`:                                                scannerTokens,
-	`reader.Read_str | index local.tokens[local.position-1]`:                                                        "read_form returned without error, so it consumed at least one token (C05.progress: consume summary of read_form) and next() never moves the cursor past len(tokens)",
-	`printer.Pr_str | assert p0.(marshaler.HashMap).MarshalHashMap()#0.(types.HashMap)`:                             "contract of marshaler.HashMap implementations (host types); the only in-module implementation, LispError.MarshalHashMap, returns a types.HashMap",
+	`reader.read_atom | slice next(p0).Value[1:len(next(p0).Value)-1]`:                  scannerTokens,
+	`reader.read_atom | slice next(p0).Value[2:len(next(p0).Value)-2]`:                  scannerTokens + "; the lone ¬ is handled by the comparison just above",
+	`reader.read_atom | slice next(p0).Value[1:]`:                                       scannerTokens,
+	`reader.Read_str | index local.{[]types.Token}[local.{int}-1]`:                      "read_form returned without error, so it consumed at least one token (C05.progress: consume summary of read_form) and next() never moves the cursor past len(tokens)",
+	`printer.Pr_str | assert p0.(marshaler.HashMap).MarshalHashMap()#0.(types.HashMap)`: "contract of marshaler.HashMap implementations (host types); the only in-module implementation, LispError.MarshalHashMap, returns a types.HashMap",
 }
 
 var exemptionsC03 = map[string]string{
@@ -39,8 +39,7 @@ var exemptionsC14 = map[string]string{
 	`types.Equal_Q | assert p1.(types.Set)`:     "as above: b has a's dynamic type (Set is not sequential)",
 }
 
-var exemptionsC20 = map[string]string{
-}
+var exemptionsC20 = map[string]string{}
 
 var exemptionsC18 = map[string]string{
 	`env.NewSubordinateEnvWithBinds | assert p0.(*env.Env)`: "documented assumption: EnvType values are the module's own *env.Env (the only implementation in the module)",
